@@ -27,8 +27,8 @@ claim("C02", "model_checking", "Tracking vectors = derive(schedule), forced (sem
 claim("C05", "model_checking", "Memoisation cache modelled as a state variable; TLC explores every query order; every real query result in every visited state is compared with the definitional operator.", N_D, T_D, "5/C05")
 claim("C06", "model_checking", "One-step-ahead invariants (now' >= now, completed grows, end = makespan, filters keep now) on the spec; same predicates on consecutive logged states and on current_time()/completed_operations() read-outs.", N_D, T_D, "5/C06")
 claim("C07", "model_checking", "TLC: compositions of filters on every sub-list of the ready list in every reachable state are non-empty sub-lists; real filters compared as sequences with the specification's criteria in every visited state.", N_D, T_D, "5/C07")
-claim("C09", "model_checking", "Reject actions enabled exactly when the request is invalid and stutter; TLC-injected invalid requests replayed on the real code: exception <=> invalid, all projected state unchanged.", N_D, T_D, "5/C09")
-claim("C10", "model_checking", "Per-subscriber Notify steps, ghost notification logs, singleton rule; recording observers in the real dispatcher compared note by note.", N_D, T_D, "5/C10")
+claim("C09", "model_checking", "Reject actions enabled exactly when the request is invalid and stutter; TLC-injected invalid requests (incl. look-alike operations that do not belong to the instance, steps after the end of an episode, machine ids beyond the current instance in the multi environment) replayed on the real code: exception <=> invalid, all projected state unchanged.", N_D, T_D, "5/C09")
+claim("C10", "model_checking", "Per-subscriber Notify steps, ghost notification logs, singleton rule; recording observers in the real dispatcher compared note by note; built-in observer twins unsubscribed by identity.", N_D, T_D, "5/C10")
 claim("C03", "model_checking", "The oracles (Opt over all dispatch histories, lower bounds) are model-checked on the spec; CP-SAT itself is a black box whose results on TLC-family and random non-flexible instances (fresh / reused solver object / 1 ns limit) are judged by the TLA+ monitor against those oracles.", N_D + " OR-Tools is not modelled.", T_D, "5/C03")
 claim("C04", "model_checking", "RuleSolver.tla: the solver loop over the instance family x rules x filters always has a best available operation, one operation per step, direct = observer-based MWKR; the real solver is stepped from TLC-chosen prefixes and every rule / score composition is asked in every visited state and compared with BestUnder / LexBest / ScoreVector.", N_D, T_D, "5/C04")
 claim("C08", "model_checking", "OptCheck.tla: TLC exhausts both dispatch trees (all histories vs histories through the dominated-operations filter) for every instance of the family and compares the minima; the real Dispatcher+filter tree is walked and its leaf makespans compared with Opt(instance) by the monitor.", N_D, T_D, "5/C08")
@@ -40,7 +40,7 @@ claim("C17", "model_checking", "GraphModel.tla: residual removals as a state var
 claim("C18", "model_checking", "Env.tla: legal decisions, declared spaces and what an observation must be given dispatcher/composite/residual records; TLC proves legal decisions lie in the declared action space over the family (the [J, M] variant is refuted); real single- and multi-instance environments are driven through episodes with injected invalid decisions and every observation/reward/flag is judged by the monitor.", N_D + " Gymnasium's contains() is trusted for membership.", T_D, "5/C18")
 claim("C14", "model_checking", "Rebuild.tla: from_job_sequences as a function, model-checked for every non-flexible instance of the family and every tuple of per-machine permutations (accepted <=> acyclic, result feasible/complete/ordered); views, dict/JSON/Taillard round trips and schedule round trips of real objects compared with the definitions of JobShop.tla by the monitor; instance fingerprint unchanged in every event of every trace.", N_D + " Text encodings only up to abstract content.", T_D, "5/C14")
 claim("C15", "exploration", "Pairs of operations / scheduled operations / schedules / instances built independently from TLC-generated instances and histories; the monitor judges a==b against equality of the abstract content, symmetry, reflexivity, !=, hashes, transitivity on triples. A pure relation - the specification only contributes content equality, hence exploration level.", N_D, "TLC-generated instances/histories -> real objects compared pairwise -> TLA+ monitor (content equality)", "5/C15")
-claim("C19", "model_checking", "Generator.tla: generator objects over random streams, same seed => prefix-related outputs under every interleaving (TLC; the global-stream design is refuted); GeneratorShape.tla: WellShaped(params, instance). TLC-chosen call interleavings executed on real generators over a grid of parameter sets; every generated instance, names, iteration counts and machine coverage judged by the monitor.", N_D + " Shape half: sampled generated instances (exploration of the random stream).", T_D, "5/C19")
+claim("C19", "model_checking", "Generator.tla: generator objects over random streams, same seed => prefix-related outputs under every interleaving (TLC; the global-stream design is refuted); GeneratorIter.tla: __iter__/__next__/generate() as a state machine, a pass yields exactly the limit whatever was done before (the rewind-on-stop design is refuted), every call sequence up to the bound enumerated by TLC and replayed on real generators; GeneratorShape.tla: WellShaped(params, instance). TLC-chosen call interleavings executed on real generators over a grid of parameter sets; every generated instance, names, iteration counts and machine coverage judged by the monitor.", N_D + " Shape half: sampled generated instances (exploration of the random stream).", T_D, "5/C19")
 claim("C20", "model_checking", "Viz.tla: the frame naming scheme + file-name sort as a function, frame i of n loaded at position i for every n <= 260 (TLC; the plain string sort is refuted at n = 100); real charts read back bar by bar from matplotlib and compared with Bars(schedule) by the monitor; the real GIF pipeline run on histories of up to 105 (thorough 250) dispatches and the written file decoded frame by frame.", N_D + " matplotlib/imageio are black boxes (outputs judged).", T_D, "5/C20")
 
 
